@@ -205,10 +205,10 @@ def DedicatedSpec (cc : CharClass) (tags : List Tag) (lay : Layout) (customTags 
   md.readingOrder = (tags.find? (fun t => t.name = Gen.readingOrderTag)).map (fun t => (toEntry t).attrs) ∧
   md.structureEl = (tags.find? (fun t => t.name = Gen.structureTag)).map (fun t => (toEntry t).attrs) ∧
   md.typeVal = md.structureEl.bind (fun d => dictGet? d typeKey) ∧
-  md.textStyle = (if guardHolds cc Gen.textStyleGuardRegex Gen.textStyleTag (renderCustom tags lay) = true then
+  md.textStyle = (if guardHolds cc Gen.textStyleGuardRegex Gen.textStyleGuardAnySpace Gen.textStyleTag (renderCustom tags lay) = true then
       some ((tags.filter (fun t => [Gen.textStyleTag].contains t.name)).map listDict) else none) ∧
   ((∃ t ∈ tags, t.name = Gen.textStyleTag) →
-      guardHolds cc Gen.textStyleGuardRegex Gen.textStyleTag (renderCustom tags lay) = true) ∧
+      guardHolds cc Gen.textStyleGuardRegex Gen.textStyleGuardAnySpace Gen.textStyleTag (renderCustom tags lay) = true) ∧
   md.customTags = (if customTags.isEmpty = true then none else
       some ((tags.filter (fun t => customTags.contains t.name)).map listDict))
 
@@ -306,9 +306,9 @@ theorem C11_dedicated_fields_partial (cc : CharClass) (hcc : Lawful cc) (tags : 
     (customTags : List (List Char))
     (htags : ∀ t ∈ tags, t.WF cc) (hlay : lay.OK cc)
     (hbr : ∀ t ∈ tags, ∀ kv ∈ t.attrs, '{' ∉ kv.1 ∧ '{' ∉ kv.2)
-    (hro : guardHolds cc Gen.readingOrderGuardRegex Gen.readingOrderTag (renderCustom tags lay) = true →
+    (hro : guardHolds cc Gen.readingOrderGuardRegex Gen.readingOrderGuardAnySpace Gen.readingOrderTag (renderCustom tags lay) = true →
       ∃ t ∈ tags, t.name = Gen.readingOrderTag)
-    (hst : guardHolds cc Gen.structureGuardRegex Gen.structureTag (renderCustom tags lay) = true →
+    (hst : guardHolds cc Gen.structureGuardRegex Gen.structureGuardAnySpace Gen.structureTag (renderCustom tags lay) = true →
       ∃ t ∈ tags, t.name = Gen.structureTag) :
     ∃ md, parseCustomMetadata cc (renderCustom tags lay) customTags = .ok md ∧
       DedicatedSpec cc tags lay customTags md := by
@@ -330,29 +330,29 @@ theorem C11_dedicated_fields_partial (cc : CharClass) (hcc : Lawful cc) (tags : 
     unfold renderCustom
     rw [parseElementList_laid hcc _ _ hL hlay.tail hB fields]
     rw [filter_lay lay.tag (fun n => fields.contains n) tags 0 htags]
-  have hGuard : ∀ (style : Bool) f, (∃ t ∈ tags, t.name = f) →
-      guardHolds cc style f (renderCustom tags lay) = true := by
-    intro style f h
+  have hGuard : ∀ (style gap : Bool) f, (∃ t ∈ tags, t.name = f) →
+      guardHolds cc style gap f (renderCustom tags lay) = true := by
+    intro style gap f h
     obtain ⟨x, hx, hxn⟩ := mem_layTags_name lay.tag f tags 0 h
     unfold guardHolds
     cases style
-    · exact hasInfix_renderLaid f _ _ ⟨x, hx, hxn⟩
+    · exact hasGuard_renderLaid hcc gap f _ _ ⟨x, hx, hxn⟩
     · simp only [if_true]
       unfold renderCustom findAll
-      rw [scan_renderLaid hcc _ _ _ hL hlay.tail (fun t ht _ => hB t ht)]
+      rw [scan_renderLaid hcc _ _ _ _ hL hlay.tail (fun t ht _ => hB t ht)]
       have : x ∈ (layTags tags lay.tag 0).filter (fun t => decide (t.name = f)) :=
         List.mem_filter.mpr ⟨hx, by simpa using hxn⟩
       cases hf : (layTags tags lay.tag 0).filter (fun t => decide (t.name = f)) with
       | nil => rw [hf] at this; simp at this
       | cons y ys => simp
   -- the two singular fields
-  have hSing : ∀ (style : Bool) f,
-      (guardHolds cc style f (renderCustom tags lay) = true → ∃ t ∈ tags, t.name = f) →
-      whenGuard (guardHolds cc style f (renderCustom tags lay)) (parseElement cc (renderCustom tags lay) f) =
+  have hSing : ∀ (style gap : Bool) f,
+      (guardHolds cc style gap f (renderCustom tags lay) = true → ∃ t ∈ tags, t.name = f) →
+      whenGuard (guardHolds cc style gap f (renderCustom tags lay)) (parseElement cc (renderCustom tags lay) f) =
       .ok ((tags.find? (fun t => t.name = f)).map (fun t => (toEntry t).attrs)) := by
-    intro style f hg
+    intro style gap f hg
     unfold whenGuard
-    by_cases hguard : guardHolds cc style f (renderCustom tags lay) = true
+    by_cases hguard : guardHolds cc style gap f (renderCustom tags lay) = true
     · obtain ⟨t, ht, htn⟩ := hg hguard
       have hsome : (tags.find? (fun t => t.name = f)).isSome = true := by
         rw [List.find?_isSome]; exact ⟨t, ht, by simpa using htn⟩
@@ -362,14 +362,14 @@ theorem C11_dedicated_fields_partial (cc : CharClass) (hcc : Lawful cc) (tags : 
     · have hnone : tags.find? (fun t => t.name = f) = none := by
         rw [List.find?_eq_none]
         intro t ht htn
-        exact hguard (hGuard style f ⟨t, ht, by simpa using htn⟩)
+        exact hguard (hGuard style gap f ⟨t, ht, by simpa using htn⟩)
       simp only [hguard, hnone]
       rfl
-  have hRO := hSing Gen.readingOrderGuardRegex Gen.readingOrderTag hro
-  have hST := hSing Gen.structureGuardRegex Gen.structureTag hst
-  have hTS : whenGuard (guardHolds cc Gen.textStyleGuardRegex Gen.textStyleTag (renderCustom tags lay))
+  have hRO := hSing Gen.readingOrderGuardRegex Gen.readingOrderGuardAnySpace Gen.readingOrderTag hro
+  have hST := hSing Gen.structureGuardRegex Gen.structureGuardAnySpace Gen.structureTag hst
+  have hTS : whenGuard (guardHolds cc Gen.textStyleGuardRegex Gen.textStyleGuardAnySpace Gen.textStyleTag (renderCustom tags lay))
         (parseElementList cc (renderCustom tags lay) [Gen.textStyleTag]) =
-      .ok (if guardHolds cc Gen.textStyleGuardRegex Gen.textStyleTag (renderCustom tags lay) = true then
+      .ok (if guardHolds cc Gen.textStyleGuardRegex Gen.textStyleGuardAnySpace Gen.textStyleTag (renderCustom tags lay) = true then
           some ((tags.filter (fun t => [Gen.textStyleTag].contains t.name)).map listDict) else none) := by
     unfold whenGuard
     rw [hList]; split <;> rfl
@@ -384,11 +384,11 @@ theorem C11_dedicated_fields_partial (cc : CharClass) (hcc : Lawful cc) (tags : 
             structureEl := (tags.find? (fun t => t.name = Gen.structureTag)).map (fun t => (toEntry t).attrs),
             typeVal := ((tags.find? (fun t => t.name = Gen.structureTag)).map (fun t => (toEntry t).attrs)).bind
               (fun d => dictGet? d typeKey),
-            textStyle := (if guardHolds cc Gen.textStyleGuardRegex Gen.textStyleTag (renderCustom tags lay) = true then
+            textStyle := (if guardHolds cc Gen.textStyleGuardRegex Gen.textStyleGuardAnySpace Gen.textStyleTag (renderCustom tags lay) = true then
               some ((tags.filter (fun t => [Gen.textStyleTag].contains t.name)).map listDict) else none),
             customTags := (if customTags.isEmpty = true then none else
               some ((tags.filter (fun t => customTags.contains t.name)).map listDict)) },
-    ?_, rfl, rfl, rfl, rfl, rfl, hGuard _ Gen.textStyleTag, rfl⟩
+    ?_, rfl, rfl, rfl, rfl, rfl, hGuard _ _ Gen.textStyleTag, rfl⟩
   unfold parseCustomMetadata
   rw [hCA]
   simp only
@@ -428,11 +428,11 @@ theorem C11_dedicated_fields_of_boundary_guards (cc : CharClass) (hcc : Lawful c
       DedicatedSpec cc tags lay customTags md := by
   have hL := layTags_ok lay.tag hlay.tag tags 0 htags
   have hB := layTags_no_lbrace hcc lay.tag hlay.tag tags 0 htags hbr
-  have key : ∀ f, guardHolds cc true f (renderCustom tags lay) = true → ∃ t ∈ tags, t.name = f := by
-    intro f hg
+  have key : ∀ gap f, guardHolds cc true gap f (renderCustom tags lay) = true → ∃ t ∈ tags, t.name = f := by
+    intro gap f hg
     unfold guardHolds renderCustom findAll at hg
     simp only [if_true] at hg
-    rw [scan_renderLaid hcc _ _ _ hL hlay.tail (fun t ht _ => hB t ht)] at hg
+    rw [scan_renderLaid hcc _ _ _ _ hL hlay.tail (fun t ht _ => hB t ht)] at hg
     cases hf : (layTags tags lay.tag 0).filter (fun t => decide (t.name = f)) with
     | nil => rw [hf] at hg; simp at hg
     | cons x xs =>
@@ -441,7 +441,7 @@ theorem C11_dedicated_fields_of_boundary_guards (cc : CharClass) (hcc : Lawful c
       obtain ⟨t, ht, htn⟩ := mem_layTags_tag lay.tag tags 0 x hx1
       exact ⟨t, ht, by rw [htn]; simpa using hx2⟩
   exact C11_dedicated_fields_partial cc hcc tags lay customTags htags hlay hbr
-    (by rw [h1]; exact key _) (by rw [h2]; exact key _)
+    (by rw [h1]; exact key _ _) (by rw [h2]; exact key _ _)
 
 /-- **The structure type becomes one of the element's types**: `parse_textregion` /
     `parse_tableregion` call `add_type(metadata['type'])`, which appends the type unless it is
@@ -614,9 +614,9 @@ theorem C11_dedicated_fields_counterexample (hsrc : Gen.structureGuardRegex = fa
       .ok [⟨"mystructure".toList, [("type".toList, .str "p".toList)]⟩] ∧
     parseCustomMetadata asciiCC "mystructure {type:p;}".toList [] = .error .ValueError := by
   refine ⟨by decide, by decide, ?_⟩
-  have hro : guardHolds asciiCC Gen.readingOrderGuardRegex Gen.readingOrderTag "mystructure {type:p;}".toList = false := by
+  have hro : guardHolds asciiCC Gen.readingOrderGuardRegex Gen.readingOrderGuardAnySpace Gen.readingOrderTag "mystructure {type:p;}".toList = false := by
     cases Gen.readingOrderGuardRegex <;> decide
-  have hst : guardHolds asciiCC Gen.structureGuardRegex Gen.structureTag "mystructure {type:p;}".toList = true := by
+  have hst : guardHolds asciiCC Gen.structureGuardRegex Gen.structureGuardAnySpace Gen.structureTag "mystructure {type:p;}".toList = true := by
     rw [hsrc]; decide
   have hel : parseElement asciiCC "mystructure {type:p;}".toList Gen.structureTag = .error .ValueError := by decide
   have hca : parseCustomAttributes asciiCC "mystructure {type:p;}".toList =
